@@ -21,6 +21,7 @@ func init() {
 			ro.dequeueIndependent(r, "dequeue-independent-of-new-definition")
 			ro.admissionTable(r, "table.admission", "equal")
 			ro.noLostUpdate(r, "no-lost-update")
+			retentionTable(w, r)
 			r.Floor("retrigger", 4)
 			r.Floor("expiry", 3)
 			r.Floor("canceled-site", 5)
